@@ -15,6 +15,7 @@
         arc = Arc { center, radii, start_angle, sweep_angle, x_rotation }   -- `centerArc`
         arc_start = arc.from()                                              -- `arc.sample 0`
         … move_to(arc_start) / line_to(arc_start) if `< 0.01` away          -- `Svg.nearStart`
+          (both set current_position = arc_start; the line_to since lyon commit 250152af)
         arc.cast::<f64>().for_each_quadratic_bezier(|c| c.cast::<f32>() …)  -- `conv`
 
   Everything is the code of `Model/Geom/SvgArc.lean` (tied bit-exactly to lyon_geom by C13) and of
